@@ -380,6 +380,17 @@ def run_shard(spec: Dict[str, Any]) -> Dict[str, Any]:
 
     collect()
     cases = _with_name_twins(_with_retyped_twins(cases))
+    # always present: a long (>= 32 values) integral sequence and its retyped twin, so that anything that memoises long
+    # sequences by value is seen with both spellings in both orders
+    for nvals in (32, 40):
+        long_case = {"nodes": [{"p": "FloatValueDataSource", "sweep": {"vars": {"t": {"kind": "values", "values": [float(i) for i in range(nvals)]}},
+                                                                  "params": {"value": "2.0 * t"}, "mode": "combinatorial", "broadcast": False,
+                                                                  "collection": "FloatDataCollection"}}],
+                     "run_space": None, "rewrites": [], "null_parameters": False}
+        twin = copy.deepcopy(long_case)
+        twin["nodes"][0]["sweep"]["vars"]["t"]["values"] = [int(x) for x in twin["nodes"][0]["sweep"]["vars"]["t"]["values"]]
+        twin["twin"] = True
+        cases += [long_case, twin]
     order = list(reversed(cases)) if v["reverse"] else list(cases)
     col = Collector()
     tdir = tempfile.mkdtemp(prefix="c04-", dir=spec.get("workdir", "."))
